@@ -130,3 +130,9 @@ Theorem C15_group_matches_follow_a_rows : forall lk w g,
   subseq (map fst (match_group lk w g)) (g_a g).
 Proof. exact group_matches_follow_a_rows. Qed.
 Print Assumptions C15_group_matches_follow_a_rows.
+
+(** Hence the number of returned sequences never exceeds the number of a-rows. *)
+Theorem C15_matched_count_le_a_rows : forall lk wh ta tb limit la lb,
+  NoDup la -> (length (matcher lk wh ta tb limit la lb) <= length la)%nat.
+Proof. exact matched_count_le_a_rows. Qed.
+Print Assumptions C15_matched_count_le_a_rows.
